@@ -339,11 +339,73 @@ Lemma sizes_in_range_partial : forall s L d lo hi,
   In (d, lo, hi) (array_plan s L) -> within (a_min s) (a_max s) lo hi = true.
 Proof.
   intros [mn mx au] L d lo hi Hr HL Hin.
-  unfold array_plan in Hin. cbn [a_min a_max a_authored] in *.
-  unfold range_ok, within, inb, BUFFER_SIZE in *. cbn [existsb] in *.
+  unfold array_plan, array_plan_with, upper_absent_is_none in Hin. cbn [a_min a_max a_authored] in *.
+  unfold range_ok, within, inb, BUFFER_SIZE in *. cbn [existsb orb] in *.
   destruct mn as [mn|]; destruct mx as [M|];
     repeat match type of Hin with context [if ?c then _ else _] => destruct c eqn:? end;
     cbn [app fst snd] in Hin; split_in Hin; try (inversion Hin; subst; clear Hin); lia.
+Qed.
+
+(* the same at the level of the arrays themselves: whatever size n the foreign generator returns
+   for a planned request (its contract: n lies in the request), n lies in [minItems, maxItems].
+   No bound is excluded: minItems 0, maxItems 0, equal bounds are all covered by range_ok. *)
+Lemma within_size_valid : forall s lo hi n,
+  within (a_min s) (a_max s) lo hi = true -> size_in_request lo hi n = true -> arr_size_valid s n = true.
+Proof.
+  intros [mn mx au] lo hi n Hw Hn. unfold within, size_in_request, arr_size_valid in *. cbn [a_min a_max] in *.
+  destruct mn as [mn|]; destruct mx as [M|]; destruct lo as [l|]; destruct hi as [h|]; lia.
+Qed.
+Lemma positive_array_sizes_valid_partial : forall s L d lo hi n,
+  range_ok (a_min s) (a_max s) = true ->
+  arr_size_valid s L = true ->
+  In (d, lo, hi) (array_plan s L) -> size_in_request lo hi n = true ->
+  arr_size_valid s n = true.
+Proof.
+  intros s L d lo hi n Hr HL Hin Hn.
+  apply (within_size_valid s lo hi n); [|exact Hn].
+  apply (sizes_in_range_partial s L d lo hi Hr); [|exact Hin].
+  destruct s as [mn mx au]. unfold within, arr_size_valid in *. cbn [a_min a_max] in *.
+  destruct mn as [mn|]; destruct mx as [M|]; lia.
+Qed.
+
+(* maxItems 0 (the only conforming array is the empty one, so L = 0): whether minItems is absent or
+   an explicit 0, nothing but the template is planned - no request for a non-empty array *)
+Lemma sizes_max_zero_only_template : forall s,
+  a_max s = Some 0 -> (a_min s = None \/ a_min s = Some 0) -> a_authored s = false ->
+  array_plan s 0 = [(AValid, Some 0, Some 0)].
+Proof.
+  intros [mn mx au] Hmx Hmn Hau. cbn [a_min a_max a_authored] in *. subst mx au.
+  destruct Hmn as [Hmn|Hmn]; subst mn; reflexivity.
+Qed.
+Definition w_arr_zero := {| a_min := Some 0; a_max := Some 0; a_authored := false |}.
+Definition w_arr_zero_nomin := {| a_min := None; a_max := Some 0; a_authored := false |}.
+Lemma sizes_max_zero_examples :
+  a_min w_arr_zero = Some 0 /\ a_max w_arr_zero = Some 0 /\ a_min w_arr_zero_nomin = None /\ a_max w_arr_zero_nomin = Some 0 /\
+  range_ok (a_min w_arr_zero) (a_max w_arr_zero) = true /\ arr_size_valid w_arr_zero 0 = true /\
+  array_plan w_arr_zero 0 = [(AValid, Some 0, Some 0)] /\
+  array_plan w_arr_zero_nomin 0 = [(AValid, Some 0, Some 0)] /\
+  (* 0/1, n/n and an explicit 0 lower bound with no upper bound *)
+  array_plan {| a_min := Some 0; a_max := Some 1; a_authored := false |} 0 = [(AValid, Some 0, Some 0); (ANear, Some 1, Some 1)] /\
+  array_plan {| a_min := Some 2; a_max := Some 2; a_authored := false |} 2 = [(AValid, Some 2, Some 2)] /\
+  array_plan {| a_min := Some 0; a_max := None; a_authored := false |} 0 = [(AValid, Some 0, Some 0); (ANear, Some 1, Some 1)].
+Proof. vm_compute. intuition. Qed.
+
+(* regression sentinel (seed C03_c): with the truthiness guard, minItems 0 / maxItems 0 plans a request for
+   exactly one item, which no array within the declared bounds satisfies; the code as it is does not *)
+Lemma array_falsy_max_guard_refuted :
+  In (ANear, Some 1, Some 1) (array_plan_falsy_max w_arr_zero 0)
+  /\ range_ok (a_min w_arr_zero) (a_max w_arr_zero) = true /\ arr_size_valid w_arr_zero 0 = true
+  /\ size_in_request (Some 1) (Some 1) 1 = true /\ arr_size_valid w_arr_zero 1 = false
+  /\ array_plan w_arr_zero 0 = [(AValid, Some 0, Some 0)].
+Proof. vm_compute. intuition. Qed.
+(* ... and the two guards differ on maxItems 0 only *)
+Lemma array_falsy_max_guard_differs_only_at_zero : forall s L,
+  a_max s <> Some 0 -> array_plan_falsy_max s L = array_plan s L.
+Proof.
+  intros [mn mx au] L H. unfold array_plan_falsy_max, array_plan, array_plan_with, upper_absent_falsy, upper_absent_is_none, truthy.
+  cbn [a_min a_max a_authored] in *.
+  destruct mx as [M|]; [|reflexivity].
+  destruct (M =? 0) eqn:E; [exfalso; apply H; f_equal; lia|]. reflexivity.
 Qed.
 
 Definition w_arr := {| a_min := Some 3; a_max := Some 1; a_authored := false |}.
@@ -827,6 +889,84 @@ Qed.
 Lemma anyof_negative_refuted :
   In (O, (Some (PInt 4), NSmaller, KMinimum 5)) (anyof_negative_numbers [[KMinimum 5]; [KMaximum 10]] [])
   /\ existsb (fun b => conforms b (PInt 4)) [[KMinimum 5]; [KMaximum 10]] = true.
+Proof. vm_compute. intuition. Qed.
+
+(* ---- positive values under anyOf / oneOf ---- *)
+Lemma combined_positive_in : forall bs ok i it,
+  In (i, it) (combined_positive_numbers bs ok) ->
+  exists b, nth_error bs i = Some b /\ In it (fst (positive_number_plan b ok)).
+Proof.
+  induction bs as [|b r IH]; intros ok i it Hin; [destruct Hin|].
+  cbn [combined_positive_numbers] in Hin. apply in_app_or in Hin. destruct Hin as [Hin|Hin].
+  - apply in_map_iff in Hin. destruct Hin as (it' & Hit & Hin). inversion Hit; subst. exists b. split; [reflexivity|exact Hin].
+  - apply in_map_iff in Hin. destruct Hin as ([i' it'] & Hit & Hin). cbn [fst snd] in Hit. inversion Hit; subst.
+    destruct (IH _ _ _ Hin) as (b' & Hn & Hb). exists b'. split; [exact Hn|exact Hb].
+Qed.
+
+Lemma combined_positive_own_branch : forall bs ok i v d,
+  forallb branch_in_regions bs = true ->
+  In (i, (Some v, d)) (combined_positive_numbers bs ok) -> authored d = false ->
+  exists b, nth_error bs i = Some b /\ num_valid b v = true.
+Proof.
+  intros bs ok i v d Hreg Hin Hau.
+  destruct (combined_positive_in _ _ _ _ Hin) as (b & Hn & Hb).
+  exists b. split; [exact Hn|].
+  assert (Hinb : In b bs) by (eapply nth_error_In; exact Hn).
+  pose proof (proj1 (forallb_forall _ _) Hreg b Hinb) as Hr. unfold branch_in_regions in Hr.
+  apply andb_true_iff in Hr. destruct Hr as [Hr Hms]. apply andb_true_iff in Hr. destruct Hr as [Hne Hed].
+  exact (positive_numbers_valid_partial b ok v d Hne Hed Hms Hb Hau).
+Qed.
+
+Lemma anyof_positive_partial : forall bs ok i v d,
+  forallb branch_in_regions bs = true ->
+  In (i, (Some v, d)) (combined_positive_numbers bs ok) -> authored d = false ->
+  anyof_valid bs v = true.
+Proof.
+  intros bs ok i v d Hreg Hin Hau.
+  destruct (combined_positive_own_branch _ _ _ _ _ Hreg Hin Hau) as (b & Hn & Hv).
+  unfold anyof_valid. apply existsb_exists. exists b. split; [eapply nth_error_In; exact Hn|exact Hv].
+Qed.
+
+Lemma others_reject_count : forall bs i b v,
+  nth_error bs i = Some b -> num_valid b v = true -> others_reject bs i v = true -> count_valid bs v = 1%nat.
+Proof.
+  unfold count_valid.
+  induction bs as [|b0 r IH]; intros i b v Hn Hv Ho; [destruct i; discriminate Hn|].
+  destruct i as [|j].
+  - cbn [nth_error] in Hn. inversion Hn; subst b0. cbn [others_reject] in Ho. cbn [filter]. rewrite Hv. cbn [length]. f_equal.
+    clear IH Hn Hv. induction r as [|c r IHr]; [reflexivity|].
+    cbn [forallb] in Ho. apply andb_true_iff in Ho. destruct Ho as [Hc Hr]. cbn [filter].
+    apply negb_true_iff in Hc. rewrite Hc. exact (IHr Hr).
+  - cbn [nth_error] in Hn. cbn [others_reject] in Ho. apply andb_true_iff in Ho. destruct Ho as [Hc Hr].
+    apply negb_true_iff in Hc. cbn [filter]. rewrite Hc. exact (IH _ _ _ Hn Hv Hr).
+Qed.
+
+Lemma oneof_positive_partial : forall bs ok i v d,
+  forallb branch_in_regions bs = true ->
+  In (i, (Some v, d)) (combined_positive_numbers bs ok) -> authored d = false ->
+  others_reject bs i v = true ->
+  oneof_valid bs v = true.
+Proof.
+  intros bs ok i v d Hreg Hin Hau Ho.
+  destruct (combined_positive_own_branch _ _ _ _ _ Hreg Hin Hau) as (b & Hn & Hv).
+  unfold oneof_valid. rewrite (others_reject_count _ _ _ _ Hn Hv Ho). reflexivity.
+Qed.
+
+(* oneOf [minimum -5, maximum 0] [maximum -3]: -5 is the "Minimum value" of the first branch, every branch is inside
+   the regions of the positive-number theorem, and -5 conforms to both branches, so not to the oneOf *)
+Definition w_oneof := [mk_num (Some (-5)) (Some 0) None None None; mk_num None (Some (-3)) None None None].
+Lemma oneof_positive_refuted :
+  In (O, (Some (-5), DMinimum)) (combined_positive_numbers w_oneof true) /\ authored DMinimum = false
+  /\ forallb branch_in_regions w_oneof = true /\ oneof_valid w_oneof (-5) = false /\ anyof_valid w_oneof (-5) = true.
+Proof. vm_compute. intuition. Qed.
+Definition w_oneof_ok := [mk_num (Some 1) (Some 3) None None None; mk_num (Some 7) (Some 9) None None None].
+Lemma oneof_positive_nonvacuous :
+  forallb branch_in_regions w_oneof_ok = true /\
+  combined_positive_numbers w_oneof_ok true =
+    [(O, (Some 1, DMinimum)); (O, (Some 2, DNear)); (O, (Some 3, DMaximum));
+     (1%nat, (Some 7, DMinimum)); (1%nat, (Some 8, DNear)); (1%nat, (Some 9, DMaximum))] /\
+  forallb (fun x => match snd x with (Some v, _) => others_reject w_oneof_ok (fst x) v | _ => true end)
+          (combined_positive_numbers w_oneof_ok true) = true.
 Proof. vm_compute. intuition. Qed.
 
 (* ====================================================================== *)
